@@ -3714,6 +3714,11 @@ void SoPlexBase<R>::_lift()
       }
    }
 
+   // the range types describe the rows and columns of the rational LP: lifting rows are equations, lifting columns
+   // are free
+   _rowTypes.append(numRowsRational() - _beforeLiftRows, RANGETYPE_FIXED);
+   _colTypes.append(numColsRational() - _beforeLiftCols, RANGETYPE_FREE);
+
    // adjust basis
    if(_hasBasis)
    {
@@ -3755,6 +3760,8 @@ void SoPlexBase<R>::_project(SolRational& sol)
    // shrink rational LP to original size
    _rationalLP->removeColRange(_beforeLiftCols, numColsRational() - 1);
    _rationalLP->removeRowRange(_beforeLiftRows, numRowsRational() - 1);
+   _colTypes.reSize(_beforeLiftCols);
+   _rowTypes.reSize(_beforeLiftRows);
 
    // shrink real LP to original size
    _realLP->removeColRange(_beforeLiftCols, numColsReal() - 1);
